@@ -195,7 +195,7 @@ def unary_task(t):
         viols[k]["count"] += 1
 
     for a in values(r):
-        for op in ("neg", "val", "pos", "assert_range", "construct_float", "construct_int", "lc_scaled"):
+        for op in ("neg", "val", "pos", "assert_range", "construct_float", "construct_int", "lc_scaled", "pow0", "pow1", "pow2", "pow3"):
             H.R.p = p
             H.reset(bitlength=n, resolution=r)
             st["executions"] += 1
@@ -207,6 +207,20 @@ def unary_task(t):
                     got, want = (+x).lc.value, a
                 elif op == "val":
                     got, want = x.val(), a / (1 << r)
+                elif op.startswith("pow"):
+                    # x ** k for a public k >= 0: 1.0, x, then repeated fixed-point products x * x**(k-1);
+                    # the library reports the representation reduced modulo p, so compare modulo p
+                    k = int(op[3:])
+                    want = 1 << r
+                    for _ in range(k):
+                        want = a if _ == 0 else (a * want) // (1 << r)
+                    res = x ** k
+                    got = res.lc.value
+                    if (got - want) % p == 0:
+                        got = want
+                    mm = H.value_wire_mismatches(res)
+                    if mm:
+                        report("value!=wire", op, a, "value %s, wire %s" % mm[0])
                 elif op == "construct_float":
                     got, want = FX.PrivValFxp(a / (1 << r)).lc.value, a
                 elif op == "construct_int":
@@ -278,7 +292,7 @@ def run(ctx):
                        "[-2-2^-r, 2+2^-r] (integers -3..3) x resolutions x bitlengths; result representation compared with "
                        "exact Fraction arithmetic (floor(a*b/2^r), floor(a*2^r/b), Python // and % on the represented "
                        "numbers, order for comparisons), raising always accepted; unary: neg, pos, val(), constructors, "
-                       "assert_range; states = distinct observed outcomes per task summed")
+                       "assert_range, x ** k for k = 0..3; states = distinct observed outcomes per task summed")
     ctx.sample({"op": "lt", "kinds": "SF", "a": 1, "b": "5/4", "resolution": 2, "expected": 1})
 
 
